@@ -55,6 +55,7 @@ type Repo struct {
 	CrashAfter int
 	Mutations  int
 	ReverseRefs bool // ListRefs enumeration order
+	OnClose    func() // observation hook: called when the repository is closed
 	UserName   string
 	UserEmail  string
 }
@@ -114,7 +115,12 @@ func (r *Repo) GetRemotes() (map[string]string, error) {
 	return out, nil
 }
 func (r *Repo) LocalStorage() repository.LocalStorage { return r.FS }
-func (r *Repo) Close() error                          { return nil }
+func (r *Repo) Close() error {
+	if r.OnClose != nil {
+		r.OnClose()
+	}
+	return nil
+}
 
 func (r *Repo) GetIndex(name string) (repository.Index, error) {
 	r.mu.Lock()
